@@ -259,6 +259,8 @@ def check_tu(ctx, tu):
                 except F.Unsupported:
                     pass
         for f in members:
+            if f.cls in tu.counter_guard_classes() and f.kind in ('ctor', 'dtor'):
+                continue      # the ++ / -- of a recognised guard class (local RAII struct): its shape is what makes it a guard
             ws = [w for w in writes(f) if any(x in PRED_FIELDS for x in fields_in(w['path']))]
             if not ws:
                 continue
